@@ -332,7 +332,7 @@ def make_bitmaps(ck, rng):
     if not quick:
         widths += [5300, 5121, 4000, 2623, 2624, 1000, 129, 31, 2]
     for w in widths:
-        kinds = ["blank", "text"] if w > 1000 and quick else ["blank", "text", "random", "stripes"]
+        kinds = ["blank", "text"] if w > 1000 and (quick or w not in (5300, 2624)) else ["blank", "text", "random", "stripes"]
         for kind in kinds:
             h = 4 if w > 1000 else 6
             if kind == "blank":
@@ -347,8 +347,8 @@ def make_bitmaps(ck, rng):
                 rows = [base]
                 for _ in range(h - 1):
                     rows.append(perturb(rows[-1], max(1, w // 400)) if rng.random() < 0.8 else runs_row(w, 25))
-            for strat in (["canon", "rand", "honly"] if quick else list(t6.STRATEGIES)):
-                if quick and w > 1000 and strat == "honly" and kind != "blank":
+            for strat in (["canon", "rand", "honly"] if quick or w > 700 else list(t6.STRATEGIES)):
+                if w > 1000 and strat == "honly" and kind != "blank":
                     continue
                 out.append(("%s w=%d %s" % (kind, w, strat), w, rows, strat))
     return out
@@ -433,6 +433,20 @@ def sample_image_trace(ck, counts):
     return w, rec.ev
 
 
+MAX_EVENTS_PER_RUN = 25000      # a batch of traces is one long behaviour, and TLC handles behaviours of < 65536 states
+
+
+def take_chunk(todo, max_events=MAX_EVENTS_PER_RUN):
+    out, n = [], 0
+    for t in todo:
+        e = len(t["ev"]) + 2
+        if out and n + e > max_events:
+            break
+        out.append(t)
+        n += e
+    return out
+
+
 def validate_traces(ck, traces, counts):
     if not traces:
         raise MachineryError("no decoder traces recorded")
@@ -443,19 +457,21 @@ def validate_traces(ck, traces, counts):
     accepted = rejected = 0
     canary_rejected = False
     while todo:
+        batch = take_chunk(todo)
         with open(tf, "w") as f:
-            json.dump(todo, f)
+            json.dump(batch, f)
         res = run_tlc(TRACE_SPEC, cfg, workers=1, env={"TRACE_FILE": tf}, timeout=3600, heap="8g")
-        ck.add_tlc(res, "G4Trace: validation of %d recorded decoder runs" % len(todo))
+        ck.add_tlc(res, "G4Trace: validation of %d recorded decoder runs" % len(batch))
         if res.ok:
-            accepted += sum(1 for t in todo if t is not canary)
-            break
+            accepted += sum(1 for t in batch if t is not canary)
+            todo = todo[len(batch):]
+            continue
         if res.violated != "deadlock" or not res.error_trace:
             raise MachineryError("decoder trace validation failed unexpectedly: " + res.error_text[:2000])
         st = res.error_trace[-1][1]
         t, k = int(st["t"]), int(st["k"])
-        accepted += sum(1 for x in todo[:t - 1] if x is not canary)
-        tr = todo[t - 1]
+        accepted += sum(1 for x in batch[:t - 1] if x is not canary)
+        tr = batch[t - 1]
         if tr is canary:
             canary_rejected = True
         else:
@@ -496,11 +512,20 @@ def fast_validate(ck, traces):
     canary = make_canary(traces)
     cfg = write_cfg(os.path.join(ck.tmp, "c19_trace_fast.cfg"), spec="Spec", invariants=["PositionsOK"], deadlock=True)
     out = []
-    for name, batch in (("canary", [canary]), ("all", traces)):
+    batches = [("canary", [canary])]
+    todo = list(traces)
+    while todo:
+        b = take_chunk(todo)
+        batches.append(("part%d" % len(batches), b))
+        todo = todo[len(b):]
+    for name, batch in batches:
         tf = os.path.join(ck.tmp, "c19_traces_%s.json" % name)
         with open(tf, "w") as f:
             json.dump(batch, f)
-        out.append(run_tlc(TRACE_SPEC, cfg, workers=1, env={"TRACE_FILE": tf}, timeout=3600, heap="8g"))
+        out.append((len(batch), run_tlc(TRACE_SPEC, cfg, workers=1, env={"TRACE_FILE": tf}, timeout=3600, heap="8g")))
+        os.remove(tf)
+        if name != "canary" and not out[-1][1].ok:
+            break               # the main thread will go through the traces one rejection at a time
     return out
 
 
@@ -515,12 +540,13 @@ def make_canary(traces):
 
 
 def validate_b(ck, counts, stats, traces, events, fast):
-    res_canary, res_all = fast
+    (_, res_canary), parts = fast[0], fast[1:]
     ck.add_tlc(res_canary, "G4Trace: the corrupted canary trace alone")
     if res_canary.ok or res_canary.violated != "deadlock":
         raise MachineryError("the corrupted canary trace was accepted by G4Trace.tla - trace validation is vacuous")
-    if res_all.ok:
-        ck.add_tlc(res_all, "G4Trace: validation of %d recorded decoder runs" % len(traces))
+    if all(r.ok for _, r in parts) and sum(n for n, _ in parts) == len(traces):
+        for n, r in parts:
+            ck.add_tlc(r, "G4Trace: validation of %d recorded decoder runs" % n)
         ck.traces += len(traces)
         accepted, rejected, canary_rejected = len(traces), 0, True
     else:       # some trace is rejected: go through them one rejection at a time for the report
